@@ -535,7 +535,10 @@ def udp_done(chan, data, method, sock, dstip):
     (src, srcport, data) = data.split(b",", 2)
     srcip = (src, int(srcport))
     debug3('doing send from %r to %r' % (srcip, dstip,))
-    method.send_udp(sock, srcip, dstip, data)
+    try:
+        method.send_udp(sock, srcip, dstip, data)
+    except socket.error as e:
+        log('UDP send from %r to %r: %s' % (srcip, dstip, e))
 
 
 def onaccept_udp(listener, method, mux, handlers):
@@ -568,7 +571,10 @@ def dns_done(chan, data, method, sock, srcip, dstip, mux):
     debug3('dns_done: channel=%d src=%r dst=%r' % (chan, srcip, dstip))
     del mux.channels[chan]
     del dnsreqs[chan]
-    method.send_udp(sock, srcip, dstip, data)
+    try:
+        method.send_udp(sock, srcip, dstip, data)
+    except socket.error as e:
+        log('DNS response send to %r: %s' % (dstip, e))
 
 
 def ondns(listener, method, mux, handlers):
